@@ -9,7 +9,7 @@
    layers.  The implementation-level oracle runs the complete round trip on every accepted string of every archetype
    and on the 119 documented strings; the erasure itself is evaluated with the extracted [erase_ext]. *)
 From Coq Require Import List ZArith QArith Ascii String Bool.
-From GBS Require Import Model.PyStr Model.Num Model.Bond Model.Token Model.Render Proofs.RenderP.
+From GBS Require Import Model.PyStr Model.Num Model.Bond Model.Token Model.Render Src.SrcBond Proofs.BondP Proofs.TokenP Proofs.RenderP.
 From GBS Require Props.C03.
 Import ListNotations.
 
@@ -29,6 +29,16 @@ Theorem C01_descriptor_noext_is_erasure : forall (fprint : num -> str), (forall 
   print_descr fprint false d = erase_ext (print_descr fprint true d) /\ barfree (print_descr fprint false d) = true.
 Proof. exact descr_noext_is_erasure. Qed.
 Print Assumptions C01_descriptor_noext_is_erasure.
+
+(* for every descriptor the parser accepts -- no side condition left *)
+Theorem C01_parsed_descriptor_noext_is_erasure : forall (fprint : num -> str), (forall x, barfree (fprint x) = true) ->
+  forall raw n pre atom d, parse_descr raw n pre atom = OK d ->
+  print_descr fprint false d = erase_ext (print_descr fprint true d) /\ barfree (print_descr fprint false d) = true.
+Proof.
+  intros fprint Hf raw n pre atom d H. apply descr_noext_is_erasure; [exact Hf| |eapply parse_descr_trans_nonempty; exact H].
+  apply parse_descr_shape in H as (Hs & _). destruct Hs as [ E | [ E | [ E | E ] ] ]; rewrite E; reflexivity.
+Qed.
+Print Assumptions C01_parsed_descriptor_noext_is_erasure.
 
 (* systems (hence molecules, objects, tokens): whenever their chunks are bar-free *)
 Theorem C01_system_noext_is_erasure : forall (fprint : num -> str) (ms : list pmol),
